@@ -79,8 +79,26 @@ def reference(item) -> dict:
     c = input_ssb(item)
     if c is None:
         return {"skip": True}
-    return {"decompile": decompile_result(gen_ssb.build(c)), "ssbs": ssbs_result(gen_ssb.build(c)),
-            "canon": json.loads(json.dumps(canon.canon_ops(gen_ssb.build(c)[1]), default=str))}
+    ssbs = ssbs_result(gen_ssb.build(c))
+    out = {"decompile": decompile_result(gen_ssb.build(c)), "ssbs": ssbs,
+           "canon": json.loads(json.dumps(canon.canon_ops(gen_ssb.build(c)[1]), default=str))}
+    if "text" in ssbs:
+        out["ssbs_compile"] = ssbs_compile_result(ssbs["text"])
+    return out
+
+
+def ssbs_compile_result(text: str) -> dict:
+    from vf.cut import compile_ssbs
+
+    try:
+        c = compile_ssbs(text)
+    except Exception as e:  # noqa
+        return describe_exc(e)
+    return {
+        "ops": json.loads(json.dumps(canon.canon_ops(c.routine_ops), default=str)),
+        "table": json.loads(json.dumps(model.real_routine_table(c.routine_infos, c.named_coroutines), default=str)),
+        "source_map": c.source_map.serialize(),
+    }
 
 
 def compile_result_nobudget(text: str) -> dict:
